@@ -92,12 +92,12 @@ let note_nontrivial (case : string) = Hashtbl.replace nontrivial (Hashtbl.hash c
 
 let disagree (case : string) (impl : string) (model : string) =
   incr disagreements;
-  if !disagreements <= max_report then Printf.printf "DISAGREE %s => impl=%s | model=%s\n" case impl model
+  if !disagreements <= max_report then Printf.printf "DISAGREE %s => impl=%s | model=%s\n%!" case impl model
 
 let specfail (cls : string) (case : string) (impl : string) (expected : string) =
   incr specfails;
   count ("specfail." ^ cls);
-  if !specfails <= max_report then Printf.printf "SPECFAIL class=%s %s => impl=%s | spec=%s\n" cls case impl expected
+  if !specfails <= max_report then Printf.printf "SPECFAIL class=%s %s => impl=%s | spec=%s\n%!" cls case impl expected
 
 let samples : string list ref = ref []
 let sample line = if Stdlib.List.length !samples < 4 || (!total land 0xFFFF) = 0 && Stdlib.List.length !samples < 12 then samples := line :: !samples
